@@ -1124,6 +1124,17 @@ class _Inliner:
                 if g is None:
                     return c
                 body = [st for st in g.body if not _is_doc_or_log(st)]
+                if len(body) == 1 and isinstance(body[0], ast.For) and not body[0].orelse and len(body[0].body) == 1:
+                    # a generator helper `for t in P: [if C:] yield E` is the generator expression `(E for t in P [if C])`
+                    lo = body[0]
+                    inner = lo.body[0]
+                    cond = None
+                    if isinstance(inner, ast.If) and not inner.orelse and len(inner.body) == 1:
+                        cond, inner = inner.test, inner.body[0]
+                    if isinstance(inner, ast.Expr) and isinstance(inner.value, ast.Yield) and inner.value.value is not None \
+                            and sum(1 for n in ast.walk(g) if isinstance(n, (ast.Yield, ast.YieldFrom))) == 1:
+                        ge = ast.GeneratorExp(inner.value.value, [ast.comprehension(lo.target, lo.iter, [cond] if cond is not None else [], 0)])
+                        body = [ast.Return(ge)]
                 if len(body) != 1 or not isinstance(body[0], ast.Return) or body[0].value is None:
                     return c
                 try:
@@ -1134,7 +1145,10 @@ class _Inliner:
                     # a complex argument would have to be evaluated once: substitute it anyway when the parameter is used once
                     for a in pre:
                         p = a.targets[0].id
-                        uses = sum(1 for n in ast.walk(body[0].value) if isinstance(n, ast.Name) and n.id + p[len(n.id):] == p)
+                        orig = [k for k, v in rename.items() if v == p]
+                        if not orig:
+                            return c
+                        uses = sum(1 for n in ast.walk(body[0].value) if isinstance(n, ast.Name) and n.id == orig[0])
                         if uses > 1:
                             return c
                         mapping[[k for k, v in rename.items() if v == p][0]] = a.value
